@@ -1212,7 +1212,8 @@ run_task(_task_t t)
 	}
 
 	/* finally fork out our child */
-	if (UNLIKELY(posix_spawn(&r, echsx, &fa, NULL, args, env) < 0)) {
+	if (UNLIKELY((errno = posix_spawn(&r, echsx, &fa, NULL, args, env)))) {
+		/* posix_spawn() hands back the error number, R is void */
 		ECHS_ERR_LOG("cannot fork: %s", STRERR);
 		r = -1;
 	}
